@@ -87,7 +87,9 @@ func (g *c11Gen) aliasCount(l *gList) int {
 	return n
 }
 
-func (g *c11Gen) w(format string, a ...interface{}) { g.b.WriteString(fmt.Sprintf(format, a...) + "\n") }
+func (g *c11Gen) w(format string, a ...interface{}) {
+	g.b.WriteString(fmt.Sprintf(format, a...) + "\n")
+}
 
 func (g *c11Gen) dump() {
 	for _, nm := range g.names {
